@@ -235,7 +235,29 @@ func (c *Ctx) vacuity(what string) {
 	c.obls = append(c.obls, o)
 }
 
+// reach records a cover obligation: the path arriving at this return is satisfiable (quantifier-free part). The
+// check driver requires at least one feasible path per return statement; a return no path reaches would make
+// every postcondition proved "at" it vacuous.
+func (c *Ctx) reach() {
+	base := fmt.Sprintf("%s/reach(return@%s)", c.FuncName, c.E.relPos(c.curPos))
+	var hyps []Term
+	for _, h := range c.St.Path {
+		if !c.axiomSet[h.S] && !strings.Contains(h.S, "(forall ") && !strings.Contains(h.S, "(exists ") {
+			hyps = append(hyps, h)
+		}
+	}
+	for _, d := range c.defs {
+		if !strings.Contains(d.S, "(forall ") && !strings.Contains(d.S, "(exists ") {
+			hyps = append(hyps, d)
+		}
+	}
+	o := &Obligation{Name: base + "@" + c.pathID.String(), Base: base, Func: c.FuncName, Kind: "reach", Hyps: hyps, PathID: c.pathID.String(),
+		Goal: False, Src: "some path reaching this return is satisfiable (quantifier-free part)", Pos: c.E.relPos(c.curPos), Vacuity: true, Decls: c.decls, Serves: c.serves}
+	c.obls = append(c.obls, o)
+}
+
 func (c *Ctx) checkExit(ct *Contract) {
+	c.reach()
 	fr := c.Fr
 	fr.InEnsures = true
 	defer func() { fr.InEnsures = false }()
